@@ -1534,6 +1534,7 @@ func runC17(ctx *Ctx) *Result {
 		"dir_binary_shape_two-fragments-shared-guard": 10, "dir_binary_shape_mk-file-undef": 10, "dir_binary_shape_same-file-twice": 10,
 		"dir_binary_shape_guard-defined-by-makefile": 8, "dir_binary_shape_condition-in-included-file": 6,
 		"crosschecked_dir_goals": 60, "dir_exhaustive_programs": 80000,
+		"dir_pkg_shape_indirect-condition": 500, "dir_binary_shape_indirect-condition": 5,
 	}
 	for _, k := range sortedKeys(floors) {
 		n, _ := res.Distribution[k].(int)
